@@ -1,6 +1,66 @@
+(* C12 - proofs about the structural queries.  The development is split by query:
+     QueriesBasics.v  reachability, topological (finishing) lists exclude cycles
+     QueriesCycle.v   graph_has_cycle: correctness for every fuel, termination (frames invariant)
+     QueriesLocal.v   root_nodes / node_children / get_edges
+     QueriesHier.v    ordered_subnodes_hierarchy
+     QueriesDepth.v   node_depth, LinkedGraph.depth
+     QueriesOracle.v  reflection of the independent closure oracle used by holds_l
+   This file gathers them and adds statements that connect the model to the oracle. *)
 From Coq Require Import List Arith Bool ZArith Lia.
-From GolemV Require Import Base.Closure Graph.QueriesSpec Graph.Queries.
+From GolemV Require Export Base.Closure Graph.QueriesSpec Graph.Queries Graph.QueriesBasics
+  Graph.QueriesCycle Graph.QueriesLocal Graph.QueriesHier Graph.QueriesDepth Graph.QueriesOracle.
 Import ListNotations.
 
-Lemma stub_nodes_length : forall g, length (nodes g) = length g.
-Proof. intros g. unfold nodes. apply seq_length. Qed.
+Lemma wf_b_iff : forall g, wf_b g = true <-> wf g.
+Proof.
+  intros g. unfold wf_b, wf. rewrite forallb_forall. split.
+  - intros H v p Hp. destruct (lt_dec v (length g)) as [Hv|Hv].
+    + assert (Hin : In (parents g v) g) by (unfold parents; apply nth_In; exact Hv).
+      specialize (H _ Hin). rewrite forallb_forall in H. apply Nat.ltb_lt. apply H. exact Hp.
+    + rewrite parents_out in Hp by lia. contradiction.
+  - intros H ps Hps. apply forallb_forall. intros p Hp. apply Nat.ltb_lt.
+    destruct (In_nth g ps [] Hps) as [v [Hv E]]. apply (H v p). unfold parents. rewrite E. exact Hp.
+Qed.
+
+(* the model's answer to the cycle query is what the independent oracle computes *)
+Theorem has_cycle_oracle : forall g, wf g -> has_cycle g = Some (cyclic_b (mk_oracle g)).
+Proof.
+  intros g Hwf. destruct (has_cycle_terminates g Hwf) as [b Hb]. rewrite Hb. f_equal.
+  pose proof (has_cycle_correct g _ b Hb) as C. pose proof (cyclic_b_iff g Hwf) as O.
+  destruct b, (cyclic_b (mk_oracle g)); try reflexivity.
+  - assert (true = true) as T by reflexivity. apply C in T. apply O in T. discriminate.
+  - assert (true = true) as T by reflexivity. apply O in T. apply C in T. discriminate.
+Qed.
+
+(* the model's hierarchy satisfies the clause that holds_l checks on observations *)
+Theorem hierarchy_oracle : forall g v, wf g -> v < length g ->
+  match hierarchy g v with
+  | Raise => cycfrom_b (mk_oracle g) v = true
+  | Ok l => cycfrom_b (mk_oracle g) v = false /\ NoDup l /\
+            exists l', l = v :: l' /\ forall x, In x l' <-> In x (anc_b (mk_oracle g) v)
+  | OutOfFuel => False
+  end.
+Proof.
+  intros g v Hwf Hv. destruct (hierarchy_correct g v Hwf Hv) as [H1 [H2 H3]].
+  pose proof (hierarchy_terminates g v Hwf Hv) as T.
+  destruct (hierarchy g v) as [l| |] eqn:E.
+  - destruct (H2 l eq_refl) as [Hnd [l' [-> Hanc]]]. split; [|split; [exact Hnd|]].
+    + destruct (cycfrom_b (mk_oracle g) v) eqn:C; [|reflexivity].
+      apply (cycfrom_b_iff g Hwf) in C. apply H1 in C. discriminate.
+    + exists l'. split; [reflexivity|]. intros x. rewrite Hanc. symmetry. apply anc_b_iff. exact Hwf.
+  - apply (cycfrom_b_iff g Hwf). apply H1. reflexivity.
+  - congruence.
+Qed.
+
+(* the model's node depth is the oracle's ground truth *)
+Theorem node_depth_oracle : forall g v, wf g -> v < length g ->
+  node_depth g v = Ok (node_depth_truth (mk_oracle g) v).
+Proof.
+  intros g v Hwf Hv. destruct (node_depth_correct g v Hwf Hv) as [H1 [H2 H3]].
+  destruct (node_depth_truth_sound g Hwf v Hv) as [O1 O2].
+  destruct (cycfrom_b (mk_oracle g) v) eqn:C.
+  - assert (CF : cycle_from g v) by (apply (cycfrom_b_iff g Hwf); exact C).
+    rewrite (proj2 O1 CF). apply H1. exact CF.
+  - assert (NC : ~ cycle_from g v) by (intros CF; apply (cycfrom_b_iff g Hwf) in CF; congruence).
+    destruct (O2 NC) as [k [-> Hk]]. apply H2. exact Hk.
+Qed.
